@@ -27,7 +27,8 @@ def make_tagger(two_haps):
         for gi, grp in enumerate(groups):
             painted = grp[0]["painted"]
             sc_tags = []
-            if painted and rng.random() < 0.25:
+            if (painted and rng.random() < 0.25) or (not painted and rng.random() < 0.05):
+                # (now and then on a scaffold the curator forgot to paint: a named chromosome all the same)
                 sc_tags.append(rng.choice(["X", "W1", "B2", "I_II", "2RL", "Z"]))
             hap = None
             if two_haps and painted:
